@@ -721,6 +721,7 @@ fn sub_kit_pairs(tier: Tier) -> Sub {
 pub fn def(tier: Tier) -> CheckDef {
     let mut subs = vec![sub_forest(Tier::Thorough), sub_kit_pairs(Tier::Thorough)]; // cheap: thorough bounds in both tiers
     subs.extend(super::c12x::subs(tier));
+    subs.extend(super::split::subs_c12(tier));
     CheckDef {
         level: "exploration",
         rule: "one case = one generated well-formed input (sections built by an independent encoder) pushed through one conversion route; distinct by construction (distinct index -> distinct (config, shape, position, kit) / instruction sequence / list); non-trivial = the input contains the construct under test for that DWARF version (kits that do not exist in a version are counted as skipped, not as cases)".into(),
@@ -733,11 +734,15 @@ pub fn def(tier: Tier) -> CheckDef {
             "of an end_sequence row only address and op_index are compared (the other registers are not used by consumers and the writer does not reproduce them)".into(),
             "alignment factors, opcode_base, line_base/line_range, minimum_instruction_length, pointer encodings and CIE version are encoding parameters and not part of the dump; the unwind rows computed with them are".into(),
             "any ConvertError / write::Error is an allowed outcome of C12; a panic is a violation".into(),
-        ],
+        ]
+        .into_iter()
+        .chain(super::split::assumptions_c12())
+        .collect(),
         subs,
         required_outcomes: {
             let mut r: Vec<String> = vec!["forest:ok".into(), "forest:reconvert-identical".into(), "pairs:ok".into()];
             r.extend(super::c12x::required());
+            r.extend(super::split::required_c12());
             r
         },
     }
